@@ -84,6 +84,18 @@ Theorem fuel_monotone : forall f f' cfg resolve x, f <= f' ->
 Proof. exact read_fuel_monotone. Qed.
 Print Assumptions fuel_monotone.
 
+(* Both at once: with the feature off, a definite result is a function of the
+   document alone -- the same under ANY oracle for the outside world and ANY
+   larger fuel. *)
+Theorem result_is_a_function_of_the_document : forall f f' cfg r1 r2 x, f <= f' ->
+  ges cfg = false -> result (read f cfg r1 x) <> Fuel ->
+  read f' cfg r2 x = read f cfg r1 x.
+Proof.
+  intros f f' cfg r1 r2 x Hle Hoff Hne.
+  rewrite (read_oracle_independent f' cfg r2 r1 x Hoff). exact (read_fuel_monotone f f' cfg r1 x Hle Hne).
+Qed.
+Print Assumptions result_is_a_function_of_the_document.
+
 (* ... and for the body of a document a fuel above the number of declared
    general entities always suffices (an open entity cannot be opened again),
    whatever the external-entity gate does. *)
